@@ -30,8 +30,9 @@ func convertReflectValueToType(rv reflect.Value, rt reflect.Type) (reflect.Value
 		// if reflect.Type is interface or the types match, return the provided reflect.Value
 		return rv, nil
 	}
-	if rv.Type().ConvertibleTo(rt) {
+	if rv.Type().ConvertibleTo(rt) && !(rv.Kind() == reflect.Slice && rt.Kind() == reflect.Array) {
 		// if reflect can covert, do that conversion and return
+		// (not a slice to an array: reflect panics when the slice is too short)
 		return rv.Convert(rt), nil
 	}
 	if (rv.Kind() == reflect.Slice || rv.Kind() == reflect.Array) &&
@@ -112,6 +113,9 @@ func convertSliceOrArray(rv reflect.Value, rt reflect.Type) (reflect.Value, erro
 		value = reflect.MakeSlice(rt, rv.Len(), rv.Len())
 	} else {
 		// make array
+		if rv.Len() > rt.Len() {
+			return rv, errInvalidTypeConversion
+		}
 		value = reflect.New(rt).Elem()
 	}
 
